@@ -36,7 +36,7 @@ def assignOps : Array AssignOp := #[.assign, .add, .sub, .mul, .div, .mod, .exp,
 def idents : Array Str := #[cl!"a", cl!"b", cl!"x", cl!"f", cl!"g", cl!"foo_1", cl!"e", cl!"ä"]
 def lits : Array Lit :=
   #[.int 0, .int 1, .int 2, .int 42, .int 30, .int 254, .int 9223372036854775807, .float (Float.ofBits 0x3ff8000000000000),
-    .float (Float.ofBits 0x3f50624dd2f1a9fc), .float (Float.ofBits 0x7e37e43c8800759c), .float (Float.ofBits 0),
+    .float (Float.ofBits 0x3f50624dd2f1a9fc), .float (Float.ofBits 0x7e37e43c8800759c), .float (Float.ofBits 0), .float (Float.ofBits 0x43e0000000000000),
     .boolean true, .boolean false, .string [], .string cl!"s", .string cl!"a \"b\" \\ /* x */ // y", .string ['\n', 'ä']]
 
 /-- the text a token is written as (floats: shortest digits, with `.0` if there is no `.`/`e`) -/
@@ -60,7 +60,9 @@ def ptok (t : Token) : PTok := ⟨t, tokText t⟩
 (three partial tokens for the lexer); integers are also written in hexadecimal, either case -/
 def altFloatTexts : Array Str :=
   #[cl!"15e-1", cl!"1.5e+0", cl!"1.5E-0", cl!".15e+1", cl!"1e-3", cl!"1E-3", cl!".1e-2", cl!"0.001e+0", cl!"1e+4", cl!"100.e+2",
-    cl!"1e+300", cl!"0e+0", cl!"0.e-5", cl!"5e-3", cl!"2e-3", cl!"1e+2"]
+    cl!"1e+300", cl!"0e+0", cl!"0.e-5", cl!"5e-3", cl!"2e-3", cl!"1e+2",
+    -- integer-looking numerals beyond the i64 range are floats
+    cl!"9223372036854775808", cl!"18446744073709551616"]
 def altFloats : Array (UInt64 × Str) := altFloatTexts.filterMap fun t => (F64.parseBits t).map (·, t)
 
 def hexText (n : Nat) (upper : Bool) : Str :=
@@ -121,7 +123,7 @@ def admissibleXB : List (Gap × PTok) → Gap → Bool
     (match rest with
       | (g1, q) :: rest' =>
         (!(fuses p.tok q.tok) || !g1.isEmpty) &&
-        (!(looksLikeMantissaE p.text && isIdentTok p.tok && isSign q.tok && !rest'.isEmpty) ||
+        (!(looksLikeMantissaE p.text && isIdentTok p.tok && isSign q.tok && (match rest' with | (_, r) :: _ => isWordTok r.tok | [] => false)) ||
           (!g1.isEmpty || !(nextGap rest' g).isEmpty))
       | [] => true) &&
     (!(isSlash p.tok) ||
@@ -195,10 +197,32 @@ rendering is tight where `AdmissibleX` allows it, with blanks otherwise -/
 def tightAtoms : Array (Expr × Str) :=
   #[(.lit (.int 30), cl!"0x1e"), (.lit (.int 254), cl!"0xFE"), (.lit (.int 14), cl!"0xe"), (.lit (.int 3), cl!"3"),
     (.var cl!"a", cl!"a"), (.var cl!"e", cl!"e"), (.var cl!"x1e", cl!"x1e")] ++
-  (#[cl!"5e-3", cl!"2e-3", cl!"1e+2", cl!".5e+1", cl!"1e5", cl!"2.5"].filterMap fun t =>
+  (#[cl!"5e-3", cl!"2e-3", cl!"1e+2", cl!".5e+1", cl!"1e5", cl!"2.5", cl!"9223372036854775808"].filterMap fun t =>
     (F64.parse t).map fun f => (Expr.lit (.float f), t))
 
+/-- prefix operators written directly in front of a literal in every spelling (`-9223372036854775808 ^ 2` is
+`-(9223372036854775808 ^ 2)`): index ↦ shape × atom -/
+def tightPrefixCase (i : Nat) : Str × Expr :=
+  let n := tightAtoms.size
+  let (a, at_) := tightAtoms[i % n]!
+  let two := Expr.lit (.int 2)
+  let e : Expr := match (i / n) % 6 with
+    | 0 => .neg a
+    | 1 => .neg (.bin .exp a two)
+    | 2 => .bin .mul two (.neg a)
+    | 3 => .paren (.neg a)
+    | 4 => .assign .assign cl!"x" (.neg a)
+    | _ => .bin .sub (.neg a) two
+  -- the atom's spelling replaces the default text of its token; everything is written without blanks where admissible
+  let atomTok := match render a with | [t] => some t | _ => none
+  let ps : List (Gap × PTok) := (render e).map fun t =>
+    ([], if (atomTok.map fun u => tokText u == tokText t) == some true then ⟨t, at_⟩ else ptok t)
+  let spaced := ps.map fun (_, p) => ([Sep.ws ' '], p)
+  (if admissibleXB ps [] then renderFrom ps [] else renderFrom spaced [], e)
+
 def tightCase (i : Nat) : Str × Expr :=
+  if i ≥ tightAtoms.size * tightAtoms.size * binOps.size then
+    tightPrefixCase (i - tightAtoms.size * tightAtoms.size * binOps.size) else
   let n := tightAtoms.size
   let (l, lt) := tightAtoms[i % n]!
   let (r, rt) := tightAtoms[(i / n) % n]!
@@ -246,7 +270,7 @@ def tokenPool : Array Token :=
     .identifier cl!"inf", .identifier cl!"ä", .int 1, .int 0, .int 1234567890123, .int 30, .int 254,
     .float (Float.ofBits 0x3f50624dd2f1a9fc), .float (Float.ofBits 0),
     .float (Float.ofBits 0x3ff8000000000000), .float (Float.ofBits 0x40c3880000000000), .boolean true, .boolean false,
-    .string [], .string cl!"a b", .string cl!"/* \" \\"]
+    .string [], .string cl!"a b", .string cl!"/* \" \\", .string cl!"3", .string cl!"07"]
 
 def genTokens (r : Rng) (n : Nat) : List Token × Rng := Id.run do
   let mut r := r
@@ -256,6 +280,20 @@ def genTokens (r : Rng) (n : Nat) : List Token × Rng := Id.run do
     r := r'
     acc := t :: acc
   return (acc, r)
+
+/-- `<mantissa>e`, a sign, and a token that is not a word, written without blanks (`1e+"3"`, `2E-(`):
+three tokens (the lexer re-joins only what parses as a float); index ↦ (tight rendering, spaced rendering, tokens) -/
+def tightSignCase (i : Nat) : Str × Str × List Token :=
+  let words : Array Str := #[cl!"1e", cl!"2E", cl!"1.5e", cl!".5E", cl!"12e", cl!"0e"]
+  let signs : Array Token := #[.plus, .minus]
+  let follows : Array Token := #[.string cl!"3", .string cl!"07", .string [], .string cl!"1e5", .lBrace, .not, .comma, .rBrace, .minus]
+  let w := words[i % words.size]!
+  let sg := signs[(i / words.size) % 2]!
+  let f := follows[(i / (words.size * 2)) % follows.size]!
+  let ts : List Token := [.identifier w, sg, f]
+  let tight : List (Gap × PTok) := ts.map fun t => ([], ptok t)
+  let spaced : List (Gap × PTok) := ts.map fun t => ([Sep.ws ' '], ptok t)
+  (if admissibleXB tight [] then renderFrom tight [] else renderFrom spaced [], renderFrom spaced [], ts)
 
 def encTokens (ts : List Token) : String := " ".intercalate (ts.map Codec.encToken)
 
